@@ -320,6 +320,10 @@ pub uninterp spec fn lines_spec(s: Seq<char>) -> Seq<Seq<char>>;
 pub uninterp spec fn nonempty_lines_spec(s: Seq<char>) -> Seq<Seq<char>>;
 /// str::split(p) for a non-empty pattern
 pub uninterp spec fn split_spec(s: Seq<char>, p: Seq<char>) -> Seq<Seq<char>>;
+/// str::split (std docs): no match gives the whole string as the only piece; a match gives at least two pieces
+pub axiom fn axiom_split_whole(s: Seq<char>, p: Seq<char>)
+    requires p.len() > 0
+    ensures (split_spec(s, p).len() == 1) == !contains_seq(s, p), split_spec(s, p).len() >= 1, !contains_seq(s, p) ==> split_spec(s, p)[0] == s;
 pub uninterp spec fn upper_spec(s: Seq<char>) -> Seq<char>;
 /// str::replace(&str, &str): all non-overlapping matches, left to right (left uninterpreted; only its functionality matters)
 pub uninterp spec fn replace_spec(s: Seq<char>, from: Seq<char>, to: Seq<char>) -> Seq<char>;
